@@ -53,7 +53,7 @@ def run(tier, seed, replay=None):
         "distinct_nontrivial": len(distinct),
         "rule": "cancel: (target in {HTTP handler, federation server}) x (cancellation point in {before the request, rerunner locked, "
                 "cache cleaned, computation created, inside a resolver, function returned, arming, after}) x 3 repetitions; "
-                "construct: 39 hostile but well-formed inputs; bomb: fragment-spread DAGs width 1-3 x depth 1-%d, nested and in the "
+                "construct: 41 hostile (each with an empty and with no variables map) but well-formed inputs; bomb: fragment-spread DAGs width 1-3 x depth 1-%d, nested and in the "
                 "operation's own selection set, with validation / conflict-detection steps counted through hooks; random: seeded "
                 "random bytes and 1-4 byte-level mutations of valid texts as query text (with odd variable maps) and as HTTP body; "
                 "distinct = different (kind, target, point, name, shape, text)" % (14 if quick else 22),
